@@ -33,6 +33,9 @@ class Lowering:
         nm = f"a{i}"
         self.names[nm] = P.atom_str(a)
         if k[0] == "sym":
+            if k[1] == P.INF_NAME:
+                from .jxinterp import Unsupported
+                raise Unsupported("an infinite constant survives in an arithmetic position of the formula")
             e = z3.Real(nm)
         elif k[0] == "bool":
             e = z3.If(z3.Bool(nm), z3.RealVal(1), z3.RealVal(0))
